@@ -5,6 +5,7 @@ import JunoModel.C06.ProofsClasses
 import JunoModel.C06.ProofsRound
 import JunoModel.C06.ProofsStale
 import JunoModel.C06.ProofsFeedConc
+import JunoModel.C06.ProofsPipe
 /-!
 C06 — property theorems (obligations). Lemmas, statements for arbitrary code variants and facts
 that merely restate the model are in `Proofs*.lean`; here every theorem is either about the code
@@ -1114,5 +1115,103 @@ theorem feed_snapshot_then_send_blocks_a_sender :
     let s0 := FeedConc.start [⟨true, some 9, false⟩] [.snd0 1, .snd0 2]
     FeedConc.blocked (FeedConc.crun .snapshotThenSend s0 [0, 0, 1, 1, 0, 0, 1, 1, 1]) 0 = true := by
   decide
+
+/-! ## round 5: ALL GOROUTINE SCHEDULES of the fetch / verify / store pipeline (`ModelPipe.lean`)
+
+Until this round "every Store / RevertHead / feed send happens in the serial callback chain, so a run
+is a sequence of `Impl` events" was a trusted READING of sync.go, and `isReverting` — which runs in
+a FETCHER goroutine, reads the chain twice at different moments and calls the source in between — was
+modelled as atomic with the start of the revert task it submits. `Pipe.step` is the machine one level
+below: the main loop, any number of fetcher goroutines (with `isReverting` read by read), the two
+callback goroutines of the streams, the revert task running inside the verifiers' callback, stream
+generations; a run is ANY list of goroutine steps with ANY source answers. What remains trusted is
+the contract of conc/stream (callbacks of a stream run serially in submission order; `Wait` joins). -/
+
+/-- THE REORG CHECK READS ONE CHAIN. For every schedule and every source, in every reachable state:
+whenever a fetcher goroutine is inside `isReverting` past its gate (`localHeight+1 == nextHeight`), or
+has returned "reorg" and its revert task has not started yet, the chain is STILL the chain its
+`Height()` call saw (`hd :: tl`), the head is still the block below the height it waits for, and no
+revert task is running. So `Height()`, `BlockHeaderByNumber`, the task's start — however far apart in
+time, with stores and reverts of other callbacks possible in principle — all see the same chain. -/
+theorem reorg_check_reads_one_chain (cfg : Cfg) (c : Chain) (hc : Pipe.Consec c) (acts : List Pipe.Act)
+    (j : Nat) (hd : Blk) (tl : Chain) :
+    let s := Pipe.run cfg (Pipe.St.init c) acts
+    Pipe.armedSnap (s.f j) = some (hd, tl) →
+      s.chain = hd :: tl ∧ hd.num + 1 = s.start + j ∧ s.impl.task = none :=
+  fun h => ((Pipe.Inv.init cfg c hc).run acts).arm1 j hd tl h
+
+/-- … and what the fetcher returns IS `isReverting` of the serial model on the chain as it is when the
+revert task starts: for a decision `d` waiting for its callback or in the verifiers' queue,
+`isReverting cfg (current chain) d.next d.latest d.confirm = some d.lpv`. -/
+theorem submitted_revert_task_is_isReverting_now (cfg : Cfg) (c : Chain) (hc : Pipe.Consec c)
+    (acts : List Pipe.Act) (j : Nat) (hd : Blk) (tl : Chain) (d : Pipe.Dec) :
+    let s := Pipe.run cfg (Pipe.St.init c) acts
+    (s.f j = .decided hd tl d ∨ ∃ k, s.f j = .queued hd tl d k) →
+      isReverting cfg s.chain d.next (some d.latest) d.confirm = some d.lpv := by
+  intro s h
+  have hi := (Pipe.Inv.init cfg c hc).run acts
+  have hsnap : Pipe.armedSnap (s.f j) = some (hd, tl) := by
+    rcases h with h | ⟨k, h⟩ <;> rw [h] <;> rfl
+  rw [(hi.arm1 j hd tl hsnap).1]
+  exact hi.dat2 j hd tl d h
+
+/-- EVERY RUN OF THE PIPELINE IS A RUN OF THE SERIAL MACHINE — for all goroutine schedules, all
+source behaviours, any number of stream generations, parallel fetchers or one: the events the
+pipeline performed (`evs`: one `deliver` per executed `storeTask`, one `reorgDetected` per started
+revert task with what the fetcher had in its hands, one `iter` per loop iteration), fed to `Impl.run`
+from the initial chain, give exactly the pipeline's chain, `currReorg`, running task and the sequence
+of everything observable (stores, reverts, feed sends). Hence every theorem above that is stated for
+all event lists of `Impl` (`stored_verified_and_extends`, `head_moves_back_only_by_revert`,
+`run_accepted_asFound`, `notifications_exact`, …) holds for every schedule of the goroutines. -/
+theorem pipeline_run_is_a_serial_run (cfg : Cfg) (c : Chain) (hc : Pipe.Consec c) (acts : List Pipe.Act) :
+    let s := Pipe.run cfg (Pipe.St.init c) acts
+    (Impl.run cfg (Impl.init c) s.evs).1 = s.impl ∧ (Impl.run cfg (Impl.init c) s.evs).2 = s.obs := by
+  intro s
+  obtain ⟨es, e1, e2, e3⟩ := Pipe.run_refines (Pipe.Inv.init cfg c hc) acts
+  have e0 : (Pipe.St.init c).evs = [] := rfl
+  have o0 : (Pipe.St.init c).obs = [] := rfl
+  have e1' : s.evs = es := by rw [e0, List.nil_append] at e1; exact e1
+  have e3' : s.obs = (Impl.run cfg (Impl.init c) es).2 := by rw [o0, List.nil_append] at e3; exact e3
+  rw [e1']
+  exact ⟨e2, e3'.symm⟩
+
+/-- Structure of a stream generation, for every schedule: callbacks of the fetchers have run for
+exactly the first `fnext` fetchers; the verifiers' queue never holds more items than that; while the
+context is live every fetcher callback has submitted exactly one item and the head is `start + vdone`
+(blocks are stored in height order, one per executed callback); while a revert task runs no fetcher
+is inside a positive reorg check and the head is below every height still being fetched. -/
+theorem generation_structure (cfg : Cfg) (c : Chain) (hc : Pipe.Consec c) (acts : List Pipe.Act) :
+    let s := Pipe.run cfg (Pipe.St.init c) acts
+    s.vdone ≤ s.vq.length ∧ s.vq.length ≤ s.fnext ∧ s.fnext ≤ s.fs.length ∧
+    (s.cancelled = false → s.vq.length = s.fnext) ∧
+    (s.cancelled = false → s.impl.task = none → nextHeight s.chain = s.start + s.vdone) ∧
+    (∀ lpv, s.impl.task = some lpv → nextHeight s.chain < s.start + s.fnext ∧ ∀ j, Pipe.armedSnap (s.f j) = none) := by
+  intro s
+  have hi := (Pipe.Inv.init cfg c hc).run acts
+  exact ⟨hi.ord5, hi.ord4, hi.ord1, hi.nc1, hi.nc3, fun lpv h => ⟨hi.tk1 lpv h, hi.tk2 lpv h⟩⟩
+
+-- non-vacuity: node holds [x1, g]; the source has reorged to [y1, g]. Two fetchers are spawned (heights
+-- 2 and 3); the fetch of 2 fails, `isReverting` passes the gate, reads the latest header (1, hash 12),
+-- the local header 1 (hash 2), confirms block y1, returns "reorg" (lpv 0); meanwhile fetcher 3 gets an
+-- answer OUT OF ORDER (before fetcher 2 returns); callbacks run in order; the revert task starts and
+-- reverts x1 after asking; the generation ends; the next one stores y1. The hypotheses of the theorems
+-- are met in the intermediate state (a queued decision) and the run is the serial run.
+example :
+    let g : Blk := ⟨0, 1, 0, true, 0, 0⟩
+    let x1 : Blk := ⟨1, 2, 1, true, 0, 0⟩
+    let y1 : Blk := ⟨1, 12, 1, true, 0, 0⟩
+    let acts1 : List Pipe.Act := [.spawn, .spawn, .fetchErr 0, .fetchOk 1 ⟨3, 9, 9, true, 0, 0⟩,
+      .localRead 0 (some ⟨1, 12⟩), .confirm 0 (some y1), .fcb, .fcb]
+    let s1 := Pipe.run Cfg.asFound (Pipe.St.init [x1, g]) acts1
+    Pipe.Consec [x1, g] ∧
+    s1.f 0 = .queued x1 [g] ⟨2, ⟨1, 12⟩, some y1, 0⟩ 0 ∧ s1.chain = [x1, g] ∧
+    let s2 := Pipe.run Cfg.asFound s1 [.vcb false, .iter none true, .iter (some ⟨0, 1, 0, true, 0, 0⟩) true,
+      .vcb false, .newGen, .spawn, .fetchOk 0 y1, .fcb, .vcb false]
+    s2.chain = [y1, g] ∧
+    s2.obs = [.reverted 1 2, .stored 1 12, .reorg ⟨1, 2, 1, 2⟩, .newHead 1 12] ∧ s2.start = 1 := by
+  intro g x1 y1 acts1 s1
+  refine ⟨⟨rfl, trivial⟩, by decide, by decide, ?_⟩
+  intro s2
+  exact ⟨by decide, by decide, by decide⟩
 
 end Juno.C06.Props
